@@ -324,14 +324,14 @@ def parse_terse(raw):
     return res
 
 
-TAGS = re.compile(r"\[((?:C\d\d|STEP[LS])(?:,(?:C\d\d|STEP[LS]))*)\]")
+TAGS = re.compile(r"\[((?:C\d\d)(?:,(?:C\d\d))*)\]")
 
 
 def applies(desc, prop):
     """assertion messages of shared harnesses carry the ids of the properties they express ([C01,C14] ...);
     untagged failures (panics, overflows, index errors inside the real code) count for every property"""
     m = TAGS.search(desc)
-    if not m or prop is None or prop.startswith("STEP") or prop in ("SPLIT", "EXP"):
+    if not m or prop is None or prop.startswith("STEP") or prop in ("SPLIT", "SSPLIT", "EXP"):
         return True
     return prop in m.group(1).split(",")
 
